@@ -276,7 +276,8 @@ static void _rehash(hmap_t *hm, uint32_t num_buckets) {
   return;
 
 fail:
-  for (bucket_end = bucket, bucket = hm->buckets; bucket < bucket_end; ++bucket) {
+  // Release the half-built new table; the live table of `hm` stays untouched.
+  for (bucket = buckets, bucket_end = buckets + num_buckets; bucket < bucket_end; ++bucket) {
     free(bucket->entries);
   }
   free(buckets);
